@@ -14,4 +14,9 @@ theorem holds_dial_reaches_accepted_listener (s : State) (h : Reachable Facts.gr
     s.listeners a = some ⟨d.id⟩ :=
   dial_reaches_accepted_listener _ facts_good s h g d a hd hpc
 
+theorem dial_facts_good : Facts.grpcDial.Good := by decide
+
+theorem holds_dial_reaches_own_id (id other : Nat) (b : Bool) : GrpcBroker.dialReaches Facts.grpcDial id other b = id :=
+  dial_reaches_own_id _ dial_facts_good id other b
+
 end GoPlugin.Instance.C07
